@@ -3,4 +3,5 @@ package all
 
 import (
 	_ "verif/props/c14"
+	_ "verif/props/c16"
 )
